@@ -75,7 +75,7 @@ func (r *Report) collect(frs []*FuncResult, db *SpecDB) {
 			r.trusted[k] += n
 		}
 		for _, tc := range fr.Enc.trustedClauses {
-			r.trusted["trusted ensures of "+tc]++
+			r.trusted[tc]++
 		}
 		for k, n := range fr.Enc.inlined {
 			r.inlined[k] += n
